@@ -678,3 +678,29 @@ func Getdents(fd int, buf []byte) (int, error) { return ReadDirent(fd, buf) }
 func ParseDirent(buf []byte, max int, names []string) (consumed int, count int, newnames []string) {
 	return realunix.ParseDirent(buf, max, names)
 }
+
+// Fallocate (mode 0): the file is at least off+len bytes long afterwards; it never shrinks.
+func Fallocate(fd int, mode uint32, off int64, length int64) error {
+	k := K
+	_, f, faulted := k.enter("fallocate")
+	if faulted {
+		k.leave(Call{Name: "fallocate", Args: []any{fd, mode, off, length}, Err: f.Err})
+		return f.Err
+	}
+	_, in, e := k.fileFd(fd, true)
+	if e == 0 && (mode != 0 || off < 0 || length <= 0) {
+		e = EINVAL
+		if mode != 0 {
+			e = EOPNOTSUPP
+		}
+	}
+	if e != 0 {
+		k.leave(Call{Name: "fallocate", Args: []any{fd, mode, off, length}, Err: e})
+		return e
+	}
+	if int64(len(in.Data)) < off+length {
+		k.truncate(in, off+length)
+	}
+	k.leave(Call{Name: "fallocate", Args: []any{fd, mode, off, length}})
+	return nil
+}
